@@ -14,7 +14,9 @@ From DX Require Import GeneratedClassTable.
    (the root of a fused group of >= 2 blockwise members is never a source). *)
 Definition raw_divisions_reviewed : list (string * (string * string)) := [
   ("FusedIO", ("_divisions", "self.operand('_expr')"));
-  ("Fused", ("_divisions", "self.exprs[0]")) ].
+  ("Fused", ("_divisions", "self.exprs[0]"));
+  (* np.add(index, x) etc. delegate to the divisions rule of a freshly built Add/Sub/Mul/Div node: a Binop, never a source *)
+  ("UFuncElemwise", ("_divisions", "binops[func](*self.args)")) ].
 Definition raw_divisions_b : bool :=
   forallb (fun r => existsb (fun a => String.eqb (fst a) (fst r) && String.eqb (fst (snd a)) (fst (snd r)) && String.eqb (snd (snd a)) (snd (snd r)))
                             raw_divisions_reviewed) raw_divisions_calls.
